@@ -63,7 +63,7 @@ Theorem C07_sat_eq_random_frag2 :
     forall q : tseq,
       (exists t, sat t final = true /\ onehot fb t q) <->
       (exists k cand, In k (keys_of fb) /\ decode_key fb k = Some cand /\ accepts fb cand = true /\
-                      tseq_of_run fb cand = q).
+                      cand_seq fb cand = q).
 Proof. exact sat_eq_random2. Qed.
 Print Assumptions C07_sat_eq_random_frag2.
 
